@@ -1270,6 +1270,14 @@ class Env:
                 if isinstance(x, dict):
                     for kk, vv in x.items():
                         self.setitem(it, o, kk, vv)
+                elif isinstance(x, (list, tuple)) or type(x).__name__ == 'IterV':
+                    items = x.items[x.pos:] if type(x).__name__ == 'IterV' else list(x)
+                    if type(x).__name__ == 'IterV':
+                        x.pos = len(x.items)
+                    for pair in items:
+                        if not (isinstance(pair, (tuple, list)) and len(pair) == 2):
+                            raise Unsupported('dict.update element %r' % (pair,))
+                        self.setitem(it, o, pair[0], pair[1])
                 else:
                     raise Unsupported('dict.update(%r)' % (x,))
             for kk, vv in k.items():
